@@ -8413,6 +8413,11 @@ func (l *Lowerer) lowerMember(mem *parser.MemberExpr, target *[]ir.Statement) (i
 	// Multi-component swizzle (.xy, .xyz, etc.) operates on a value, not a pointer.
 	// Apply the Load Rule to get the value before creating the Swizzle expression.
 	loadedBase := l.applyLoadRule(base)
+	if loadedBase == base && l.isPointerExpressionInLowerer(base) {
+		// (*p).xy with p a pointer value (a ptr<> parameter): the load rule
+		// only loads references, the swizzle needs the pointee.
+		loadedBase = l.addExpression(ir.Expression{Kind: ir.ExprLoad{Pointer: base}})
+	}
 
 	size, pattern, err := l.swizzlePattern(mem.Member, vec.Size)
 	if err != nil {
